@@ -45,12 +45,12 @@ BoardClauses(p, b) ==
          \cup (IF ForceDownIff(p, b) THEN {} ELSE {"C15.ForceDownIff"})
 BoardOK(p, b) == BoardClauses(p, b) = {}
 
-\* loose-tile frequency at 6 sigma, for lt = k/100 on an n-tile board, c loose tiles:
-\*     |100 c - n k| <= 6 * sqrt(n k (100 - k))
-ISqrtUp(v) == CHOOSE r \in 0..3000 : r * r >= v /\ (r = 0 \/ (r - 1) * (r - 1) < v)
-FreqOK(c, n, k) == LET dev == 100 * c - n * k
+\* loose-tile frequency at 6 sigma, for lt = n/d on an N-tile board with c loose tiles:
+\*     |d c - N n| <= 6 * sqrt(N n (d - n))
+ISqrtUp(v) == CHOOSE r \in 0..25000 : r * r >= v /\ (r = 0 \/ (r - 1) * (r - 1) < v)
+FreqOK(c, N, x) == LET dev == x.d * c - N * x.n
                        a   == IF dev < 0 THEN -dev ELSE dev
-                   IN  a <= 6 * ISqrtUp(n * k * (100 - k))
+                   IN  a <= 6 * ISqrtUp(N * x.n * (x.d - x.n))
 CountLoose(b) == LET rowc(i) == Cardinality({j \in DOMAIN b.loose[i] : b.loose[i][j] = 1})
                      RECURSIVE S(_)
                      S(i) == IF i = 0 THEN 0 ELSE rowc(i) + S(i - 1)
